@@ -305,7 +305,7 @@ func genRCase(r *vk.RNG, wantSink int) *rcase {
 		}
 	}
 	if r.Chance(1, 5) {
-		c.Sep = vk.Pick(r, []string{") ", " - ", "."})
+		c.Sep = vk.Pick(r, []string{") ", " - ", ".", " → ", "・・"})
 	}
 	if r.Chance(1, 5) {
 		c.ErrPfx = vk.Pick(r, []string{"invalid input: '9'", "error sym:3", "e"})
@@ -352,9 +352,9 @@ func genRCase(r *vk.RNG, wantSink int) *rcase {
 	}
 	if c.HasSink || c.MSink {
 		if true {
-			c.Next = &[2]string{vk.Pick(r, []string{"11", "n", "9999"}), vk.Pick(r, []string{"next", "fwd_label_long", "n"})}
+			c.Next = &[2]string{vk.Pick(r, []string{"11", "n", "9999"}), vk.Pick(r, []string{"next", "fwd_label_long", "n", "следующая", "次のページへ"})}
 			if r.Chance(4, 5) {
-				c.Prev = &[2]string{vk.Pick(r, []string{"22", "p", "0000"}), vk.Pick(r, []string{"prev", "backwards_label", "p"})}
+				c.Prev = &[2]string{vk.Pick(r, []string{"22", "p", "0000"}), vk.Pick(r, []string{"prev", "backwards_label", "p", "предыдущая страница", "ወደ ኋላ"})}
 			}
 		}
 	}
